@@ -179,6 +179,9 @@ Print Assumptions C02_conc_flat_started.
    composite child it is the assumption that the child is a linearizable object - which is
    what C02_conc_flat proves for depth 1 - combined by the substitution principle for
    linearizable objects (Herlihy & Wing 1990, locality), which is NOT mechanised here.
+   SUPERSEDED by C02_conc_nested in Properties/C02_nested.v, which proves the theorem for composite
+   children of any depth WITHOUT the atomicity assumption (a child operation under the parent's
+   read lock is an interleaved sequence of the child's own sections).
    Sequential callers of nested trees are fully covered by C02_seq_refines; nested trees under
    concurrent callers are additionally checked by the correspondence run (log checker). *)
 Theorem C02_conc_nested_partial : forall fuel c0 lo0 ths st,
